@@ -18,9 +18,10 @@ def _h(seed, label):
 
 
 class Stream:
-    __slots__ = ('label', 'rng', 'replay', 'pos', 'rec', 'src')
+    __slots__ = ('label', 'rng', 'replay', 'pos', 'rec', 'src', 'exhaust')
 
-    def __init__(self, src, label, seed, replay):
+    def __init__(self, src, label, seed, replay, exhaust='zero'):
+        self.exhaust = exhaust
         self.src = src
         self.label = label
         self.rng = random.Random(_h(seed, label)) if replay is None else None
@@ -41,6 +42,11 @@ class Stream:
                     v = n - 1
                 elif v < 0:
                     v = 0
+            elif self.exhaust == 'prng':
+                # identity-like streams (tokens, names): zeros would collide; fall back to a fixed PRNG
+                if self.rng is None:
+                    self.rng = random.Random(_h(self.src.seed, self.label) ^ 0x5bd1e995)
+                v = self.rng.randrange(n)
             else:
                 v = 0
             self.pos += 1
@@ -99,13 +105,13 @@ class ChoiceSource:
         self.streams = {}
         self.n_draws = 0
 
-    def stream(self, label):
+    def stream(self, label, exhaust='zero'):
         s = self.streams.get(label)
         if s is None:
             rp = None
             if self.replay is not None:
                 rp = self.replay.get(label, [])
-            s = self.streams[label] = Stream(self, label, self.seed, rp)
+            s = self.streams[label] = Stream(self, label, self.seed, rp, exhaust)
         return s
 
     def recorded(self):
